@@ -215,3 +215,57 @@ Proof.
   intros main sel sc [->|H]; unfold arity_kept, select_after; [apply Nat.eqb_refl|].
   destruct main; [apply Nat.eqb_refl|]. rewrite (widen_noop sc sel H). apply Nat.eqb_refl.
 Qed.
+
+(* ---- the cid-level inference refines the kind-level one: forgetting the column ids (and what the redirects do to them) gives
+   exactly the run of Model/Sorts.v on direction lists -- so c03_final_order_any_split, c03_takes_see_order_in_effect and
+   c03_state_tracks_order_in_effect speak about the model that is compared with the code at the level of column ids *)
+Definition is_nil (k : list bool) : bool := match k with [] => true | _ => false end.
+Definition erase_cte (c : nat * st skey) : nat * st (list bool) := (fst c, erase_st (snd c)).
+
+Lemma lookup_erase ctes tid : lookup (list bool) [] (map erase_cte ctes) tid = erase_st (lookup skey [] ctes tid).
+Proof.
+  unfold lookup. induction ctes as [|c r IH]; [reflexivity|].
+  cbn [map find]. unfold erase_cte at 1. cbn [fst]. destruct (Nat.eqb (fst c) tid); [reflexivity | exact IH].
+Qed.
+
+Lemma map_snd_redirect rd k : map snd (redirect_sorts rd k) = map snd k.
+Proof. unfold redirect_sorts. rewrite map_map. reflexivity. Qed.
+
+Lemma is_nil_erase (k : skey) : is_nil (map snd k) = skey_empty k.
+Proof. destruct k; reflexivity. Qed.
+
+Lemma cstep_erase ctes rds s i :
+  step (list bool) is_nil [] (map erase_cte ctes) (erase_st s) (erase_item i)
+  = (erase_st (fst (cstep ctes rds s i)), map erase_item (snd (cstep ctes rds s i))).
+Proof.
+  destruct i; cbn [cstep erase_item step fst snd map]; try reflexivity.
+  - rewrite lookup_erase. unfold erase_st. cbn [sorting fdo]. rewrite map_snd_redirect. reflexivity.
+  - unfold erase_st. cbn [fdo]. destruct (fdo skey s); reflexivity.
+  - unfold erase_st at 1. cbn [sorting]. rewrite is_nil_erase. destruct (part_empty && negb (skey_empty emb)); reflexivity.
+Qed.
+
+Theorem crun_refines_run : forall p ctes rds s,
+  run (list bool) is_nil [] (map erase_cte ctes) (erase_st s) (map erase_item p)
+  = (erase_st (fst (crun ctes rds s p)), map erase_item (snd (crun ctes rds s p))).
+Proof.
+  induction p as [|i r IH]; intros ctes rds s; [reflexivity|].
+  cbn [map run crun]. rewrite cstep_erase.
+  destruct (cstep ctes rds s i) as [s1 o1]. cbn [fst snd].
+  rewrite IH. destruct (crun ctes rds s1 r) as [s2 o2]. cbn [fst snd]. rewrite map_app. reflexivity.
+Qed.
+
+(* the inherited sorting is re-targeted column by column and keeps its directions; a column without a redirect in the reading
+   instance keeps the id it has INSIDE the CTE (the situation of findings C07-N1 / F46 / F24: the emitted ORDER BY then names a
+   column by the name it has in there) *)
+Theorem redirect_sorts_spec rd k :
+  map snd (redirect_sorts rd k) = map snd k /\
+  forall c d, In (c, d) k -> In (redirect_cid rd c, d) (redirect_sorts rd k).
+Proof.
+  split; [apply map_snd_redirect|]. intros c d H. unfold redirect_sorts.
+  apply (in_map (fun cb : nat * bool => (redirect_cid rd (fst cb), snd cb)) k (c, d) H).
+Qed.
+Theorem redirect_cid_unmapped rd c : (forall p, In p rd -> fst p <> c) -> redirect_cid rd c = c.
+Proof.
+  intro H. unfold redirect_cid. destruct (find (fun p => Nat.eqb (fst p) c) rd) as [p|] eqn:E; [|reflexivity].
+  apply find_some in E as [Hin Eq]. apply Nat.eqb_eq in Eq. exfalso. exact (H p Hin Eq).
+Qed.
